@@ -523,6 +523,17 @@ func c09Fault(c *core.C, mi int, tar bool) {
 		}
 		if fired > 0 && err != nil && o.Kind == "found" {
 			c.Count("found_after_failed_store", 1)
+			// Faults injected inside the real disk writer (hook points): the commit marker is put
+			// atomically and last, so a store that reported failure cannot have published it.
+			// (Wrapper faults sit above the atomic writer: a failing wrapper Close has already
+			// committed the object underneath, which is an artefact of the wrapper, not of buf.)
+			hookOnly := len(plan.fired) == 0
+			if hookOnly {
+				c.Violation("failed-store-marked-complete", key, "PutModuleDatas returned an error ("+err.Error()+") but the entry is marked complete and served", nil)
+			}
+		}
+		if fired > 0 && err != nil {
+			c.Count("failed_store_not_complete_checked", 1)
 		}
 		c09Repair(c, cache, tar, s, key)
 	}
